@@ -20,9 +20,9 @@ import (
 	pebblev1 "github.com/NethermindEth/juno/db/pebble"
 	"github.com/NethermindEth/juno/db/pebblev2"
 	pebv1 "github.com/cockroachdb/pebble"
-	vfsv1 "github.com/cockroachdb/pebble/vfs"
 	pebv2 "github.com/cockroachdb/pebble/v2"
 	vfsv2 "github.com/cockroachdb/pebble/v2/vfs"
+	vfsv1 "github.com/cockroachdb/pebble/vfs"
 
 	"verifharness/internal/vh"
 )
@@ -96,7 +96,7 @@ type backend struct {
 	name    string
 	open    func(dir string) (db.KeyValueStore, error)
 	mk      func() func(dir string) (db.KeyValueStore, error) // opener bound to one fresh file system
-	wrap    string // "", "sync", "buffer"
+	wrap    string                                            // "", "sync", "buffer"
 	isMem   bool
 	scratch bool
 }
@@ -616,6 +616,12 @@ func (r *replayer) closeAll() (problem string) {
 	return ""
 }
 
+// leakedHandle: Pebble refuses to close (error "leaked iterators", or a panic "element has
+// outstanding references" from the block cache) when a value handle it gave out was not released.
+func leakedHandle(msg string) bool {
+	return strings.Contains(msg, "outstanding references") || strings.Contains(msg, "leaked iterators")
+}
+
 func eqStore(a, b []string) bool {
 	if len(a) != len(b) {
 		return false
@@ -712,9 +718,9 @@ func TestKVReplay(t *testing.T) {
 					if r.it != nil && isIterCall && (r.itShape == "prefix-nobound" || r.itShape == "allff-ub") && obs != s.Res {
 						key = fmt.Sprintf("kv-iter-shape:%s:%s", r.itShape, be.name)
 					}
-					if s.A.Name == "Reopen" && strings.Contains(obs.Kind, "outstanding references") {
+					if s.A.Name == "Reopen" && leakedHandle(obs.Kind) {
 						// the database cannot be closed: a value handle obtained earlier was never released
-						key = "kv-close-outstanding-references:" + be.name
+						key = "kv-close-leaked-handle:" + be.name
 					}
 					if s.A.Name == "SnapHas" && !s.Res.B && len(obs.Kind) > 6 && obs.Kind[:6] == "error:" {
 						// Snapshot.Has of a key that is not in the snapshot returns an error instead of (false, nil)
@@ -725,7 +731,7 @@ func TestKVReplay(t *testing.T) {
 						What: fmt.Sprintf("backend %s, call %s: result/store differs from the contract", be.name, s.A.Name),
 						Input: vh.J{"keys": in.Keys, "behaviours": [][]step{beh[:si+1]}, "backends": []string{be.name},
 							"listener": map[bool]string{true: "all", false: "none"}[useListener], "disk_every": 1},
-						Step:  si, Expected: vh.J{"res": s.Res, "store": s.Store}, Observed: vh.J{"res": obs, "store": obsStore},
+						Step: si, Expected: vh.J{"res": s.Res, "store": s.Store}, Observed: vh.J{"res": obs, "store": obsStore},
 					})
 					diverged = true
 					break
@@ -733,8 +739,8 @@ func TestKVReplay(t *testing.T) {
 			}
 			if problem := r.closeAll(); problem != "" && !diverged {
 				key := fmt.Sprintf("kv:%s:Close", be.name)
-				if strings.Contains(problem, "outstanding references") {
-					key = "kv-close-outstanding-references:" + be.name
+				if leakedHandle(problem) {
+					key = "kv-close-leaked-handle:" + be.name
 				}
 				out.Diverge(vh.Divergence{
 					Key:  key,
